@@ -295,12 +295,13 @@ func (m *allocModel) step(s *mstate, in opIn, out opOut) (bool, *mstate) {
 		return true, n
 	case "squat":
 		pi := protoIdx(in.Proto)
-		can := len(s.boundOwners(pi, in.Port)) == 0 && !s.squat[pi][in.Port]
-		if out.OK != can {
-			return false, s
-		}
 		if !out.OK {
-			return true, s
+			// the bind fails against a listening owner, another squatter, or the server's own availability
+			// probe of a port it is acquiring (owner not yet listening)
+			return len(s.owners(pi, in.Port)) > 0 || s.squat[pi][in.Port], s
+		}
+		if len(s.boundOwners(pi, in.Port)) > 0 || s.squat[pi][in.Port] {
+			return false, s
 		}
 		n := s.clone()
 		n.squat[pi][in.Port] = true
